@@ -201,4 +201,18 @@ void __tsan_atomic_thread_fence(int mo) {
 }
 void __tsan_atomic_signal_fence(int) {}
 
+// libc block operations called by the library (flavour T only): same effect, plus range reports for the race detector
+void *simk_memcpy(void *d, const void *s, size_t n) {
+  if (active() && n) { hb::plain_read(s, n); hb::plain_write(d, n); }
+  return memcpy(d, s, n);
+}
+void *simk_memmove(void *d, const void *s, size_t n) {
+  if (active() && n) { hb::plain_read(s, n); hb::plain_write(d, n); }
+  return memmove(d, s, n);
+}
+void *simk_memset(void *d, int c, size_t n) {
+  if (active() && n) hb::plain_write(d, n);
+  return memset(d, c, n);
+}
+
 }  // extern "C"
